@@ -3,3 +3,5 @@ import Props.C15
 #print axioms Bycycle.Eff.C15_static
 #print axioms Bycycle.Eff.C15_frame
 #print axioms Bycycle.Eff.C15_summaries
+#print axioms Bycycle.Eff.C15_frame_full
+#print axioms Bycycle.Eff.C15_sound_full
